@@ -1,0 +1,30 @@
+//go:build verif
+
+// Verification hook for property C13 (EndpointIndex two-level locking): channel-driven gate.
+// The gate points sit between critical sections (no lock held), so a harness can decide in which
+// order the critical sections of concurrent EndpointIndex calls run, without sleeps.
+
+package model
+
+import "sync/atomic"
+
+// VerifGateFunc is called with the gate point name by the goroutine that reached it; it may block
+// (e.g. on a channel) until the harness lets the goroutine continue.
+type VerifGateFunc func(point string)
+
+var verifGateFn atomic.Pointer[VerifGateFunc]
+
+// VerifSetGate installs (or, with nil, removes) the gate function.
+func VerifSetGate(f VerifGateFunc) {
+	if f == nil {
+		verifGateFn.Store(nil)
+		return
+	}
+	verifGateFn.Store(&f)
+}
+
+func verifGate(point string) {
+	if f := verifGateFn.Load(); f != nil {
+		(*f)(point)
+	}
+}
